@@ -227,6 +227,23 @@ func nextRunnable(from int, allowBlocked bool) int {
 	return -1
 }
 
+// firstLive returns the first goroutine that is not done, scanning start,
+// start+1, ... cyclically; -1 if there is none.
+//
+//go:norace
+func firstLive(start int) int {
+	for k := 0; k < ng; k++ {
+		i := (start + k) % ng
+		if i < 0 {
+			i += ng
+		}
+		if !gs[i].done {
+			return i
+		}
+	}
+	return -1
+}
+
 //go:norace
 func park(i int) {
 	for gs[i].word == 0 {
@@ -273,17 +290,11 @@ func Exit(i int) {
 		next = highestPrio(i)
 	}
 	if next < 0 || next >= ng || gs[next].done {
-		base := i
+		start := i + 1
 		if next >= 0 && next < ng {
-			base = next - 1
-			if base < 0 {
-				base += ng
-			}
+			start = next
 		}
-		next = nextRunnable(base, true)
-		if next >= 0 && gs[next].done {
-			next = -1
-		}
+		next = firstLive(start)
 	}
 	if next < 0 {
 		return // everyone is done
